@@ -161,4 +161,766 @@ theorem iter_inv {c : Client} {t : Nat} (X : Ctx vo ao c t) :
   | payrd lk => exact iter_payrd X lk _ hop
   | paywr lk val => exact iter_paywr X lk val _ hop
 
+
+/-! ### `advance` -/
+
+theorem Inv.finish {c : Client} {t : Nat} (hI : Inv vo ao c) (ht : t < c.threads.size)
+    (hp : (getThread c t).pend = .none) (hf : (getThread c t).finished = false)
+    (hpc : ¬ (getThread c t).pc < (getThread c t).prog.size) :
+    Inv vo ao (setThread c t { (getThread c t) with finished := true, pend := .none }) := by
+  have htok := hI.thr t ht
+  simp only [TOk, hf, hp, hpc, dite_false, reduceCtorEq, if_false, Bool.false_eq_true] at htok
+  have hth : getThread (setThread c t { (getThread c t) with finished := true, pend := .none }) t =
+      { (getThread c t) with finished := true, pend := .none } := getThread_setThread_self ht
+  refine Inv.update_own hI (SameFor.setThread ht rfl) (fun _ => rfl) (fun _ _ => rfl) ?_ ?_ ?_ ?_ ?_ ?_
+  · intro v lk _ h; exact hI.vlk v lk h
+  · intro v lk a hv _ hst
+    rw [StaleOk_iff] at hst; subst hv
+    obtain ⟨h, _⟩ := hst; exact absurd h hpc
+  · intro lk a h; rw [hth] at h; simp only [htok.1] at h; cases h
+  · intro lk h; rw [hth] at h; exact hI.tmpLk t lk h
+  · intro lk a _ h _
+    rcases h with h | h
+    · rw [htok.1] at h; cases h
+    · obtain ⟨h, _⟩ := h; exact absurd h hpc
+  · simp only [TOk, hth, if_true]; exact ⟨htok.1, trivial⟩
+
+theorem advance_succ (fuel : Nat) (c : Client) (t : Nat) (out : Out) :
+    advance P (fuel + 1) c t out =
+      if h : (getThread c t).pc < (getThread c t).prog.size then
+        match (runPhase P c t (getThread c t).pc ((getThread c t).prog[(getThread c t).pc]) (getThread c t).phase).2.2 with
+        | .next => advance P fuel (afterPhase (runPhase P c t (getThread c t).pc ((getThread c t).prog[(getThread c t).pc]) (getThread c t).phase).1 t .next) t
+            ((if (getThread c t).phase = 0 then out ++ [s!"B{(getThread c t).pc}"] else out) ++
+              (runPhase P c t (getThread c t).pc ((getThread c t).prog[(getThread c t).pc]) (getThread c t).phase).2.1)
+        | .block => (afterPhase (runPhase P c t (getThread c t).pc ((getThread c t).prog[(getThread c t).pc]) (getThread c t).phase).1 t .block,
+            (if (getThread c t).phase = 0 then out ++ [s!"B{(getThread c t).pc}"] else out) ++
+              (runPhase P c t (getThread c t).pc ((getThread c t).prog[(getThread c t).pc]) (getThread c t).phase).2.1)
+        | .doneOp => advance P fuel (afterPhase (runPhase P c t (getThread c t).pc ((getThread c t).prog[(getThread c t).pc]) (getThread c t).phase).1 t .doneOp) t
+            ((if (getThread c t).phase = 0 then out ++ [s!"B{(getThread c t).pc}"] else out) ++
+              (runPhase P c t (getThread c t).pc ((getThread c t).prog[(getThread c t).pc]) (getThread c t).phase).2.1)
+      else (setThread c t { (getThread c t) with finished := true, pend := .none }, out ++ ["X"]) := by
+  rw [advance]
+  split
+  · rename_i h
+    simp only [h, dite_true]
+    generalize runPhase P c t (getThread c t).pc ((getThread c t).prog[(getThread c t).pc]) (getThread c t).phase = res
+    obtain ⟨c1, o, r⟩ := res
+    cases r <;> rfl
+  · rename_i h
+    simp only [h, dite_false]
+
+/-- **`advance` preserves the invariant**: local code of any number of instructions, up to the next atomic operation -/
+theorem advance_inv (fuel : Nat) : ∀ (c : Client) (out : Out) (ao : Nat → Nat → Nat) (t : Nat), WF vo c → Inv vo ao c →
+    t < c.threads.size → (getThread c t).pend = .none → (getThread c t).finished = false →
+    ∃ ao', Inv vo ao' (advance P fuel c t out).1 ∧ WF vo (advance P fuel c t out).1 ∧
+      (advance P fuel c t out).1.threads.size = c.threads.size := by
+  induction fuel with
+  | zero => intro c out ao t hwf hI ht _ _; exact ⟨ao, hI, hwf, rfl⟩
+  | succ fuel ih =>
+    intro c out ao t hwf hI ht hp hf
+    rw [advance_succ]
+    split
+    · rename_i hpc
+      have X : Ctx vo ao c t := ⟨hwf, hI, ht, hp, hf, hpc⟩
+      obtain ⟨ao', hI', hwf', hsz, hrest⟩ := iter_inv (P := P) X
+      generalize runPhase P c t (getThread c t).pc ((getThread c t).prog[(getThread c t).pc]) (getThread c t).phase = res at *
+      obtain ⟨c1, o, r⟩ := res
+      cases r
+      · simp only at hrest ⊢
+        obtain ⟨ao'', h1, h2, h3⟩ := ih _ _ ao' t hwf' hI' (by rw [hsz]; exact ht) hrest.1 hrest.2
+        exact ⟨ao'', h1, h2, h3.trans hsz⟩
+      · exact ⟨ao', hI', hwf', hsz⟩
+      · simp only at hrest ⊢
+        obtain ⟨ao'', h1, h2, h3⟩ := ih _ _ ao' t hwf' hI' (by rw [hsz]; exact ht) hrest.1 hrest.2
+        exact ⟨ao'', h1, h2, h3.trans hsz⟩
+    · rename_i hpc
+      refine ⟨ao, hI.finish ht hp hf hpc, ?_, by simp⟩
+      exact hwf.same (SameFor.setThread (vo := vo) (ao := ao) ht rfl)
+
+
+/-! ### atomic steps -/
+
+/-- a blocked thread (state at a quantum boundary) -/
+structure Blk (vo : Nat → Nat) (ao : Nat → Nat → Nat) (c : Client) (t : Nat) : Prop where
+  wf : WF vo c
+  inv : Inv vo ao c
+  ht : t < c.threads.size
+  fin : (getThread c t).finished = false
+  nstart : (getThread c t).pend ≠ .start
+  hpc : (getThread c t).pc < (getThread c t).prog.size
+
+theorem Blk.stage {c : Client} {t : Nat} (B : Blk vo ao c t) :
+    Stage (viewOf vo ao c t) ((getThread c t).prog[(getThread c t).pc]'B.hpc) (getThread c t).phase (getThread c t).pend := by
+  have := B.inv.thr t B.ht
+  simp only [TOk, B.fin, B.nstart, B.hpc, dite_true, if_false, Bool.false_eq_true] at this
+  exact this
+
+/-- a thread whose pending operation is not `none` has no stale variable -/
+theorem Blk.var_held {c : Client} {t : Nat} (B : Blk vo ao c t) (hp : (getThread c t).pend ≠ .none) {v lk a : Nat}
+    (hv : vo v = t) (h : own c v = some (lk, a)) :
+    lk < c.locks.size ∧ ao lk a = t ∧ ∃ s, agentLoc c lk a = .held (kindOf c v).gmode s := by
+  obtain ⟨h1, h2, h3⟩ := B.inv.varOk v lk a h
+  refine ⟨h1, by rw [h2, hv], ?_⟩
+  rcases h3 with h3 | ⟨_, h4⟩
+  · exact h3
+  · rw [StaleOk_iff] at h4; subst hv
+    exact absurd h4.2.2.2.1 hp
+
+/-- **the request of the running call makes a step** (an atomic step inside a call, the downgrade store):
+    only request `(lk, a)` changes, to a non-idle location `l'`; the thread's pending operation becomes `p'`. -/
+theorem Blk.agent_step {c : Client} {t : Nat} (B : Blk vo ao c t) (hp : (getThread c t).pend ≠ .none)
+    (hph : (getThread c t).phase = 1) (htmpn : (getThread c t).tmp.own = none)
+    {lk a : Nat} (hlk : lk < c.locks.size) (hao : ao lk a = t) (hag : (getThread c t).ag = a)
+    (hoplk : opLk (viewOf vo ao c t).gv (getThread c t) ((getThread c t).prog[(getThread c t).pc]'B.hpc) = lk)
+    (hureq : usesReq (getThread c t) ((getThread c t).prog[(getThread c t).pc]'B.hpc) = true)
+    (hunref : ∀ v, vo v = t → own c v ≠ some (lk, a))
+    (halt : a < (lockSt c lk).agents.length)
+    (l' : Loc) (hl' : l' ≠ .idle) (s' : WLock.St) (hs' : s'.agents = (lockSt c lk).agents.set a l')
+    (p' : Pend) (hp' : p' ≠ .start)
+    (hstage : ∀ V : View, V.th = { (getThread c t) with pend := p' } → V.gv = (viewOf vo ao c t).gv → V.al lk a = l' →
+      V.Unref lk a → V.nl = c.locks.size →
+      Stage V ((getThread c t).prog[(getThread c t).pc]'B.hpc) 1 p') :
+    Inv vo ao (setThread (setLockSt c lk s') t { (getThread c t) with pend := p' }) := by
+  obtain ⟨c0, hc0⟩ : ∃ c0, c0 = setLockSt c lk s' := ⟨_, rfl⟩
+  rw [← hc0]
+  have ht0 : t < c0.threads.size := by rw [hc0]; exact B.ht
+  have hth0 : getThread c0 t = getThread c t := by rw [hc0]; rfl
+  have hal0 : ∀ lk' a', agentLoc c0 lk' a' = if lk' = lk ∧ a' = a then l' else agentLoc c lk' a' := by
+    intro lk' a'
+    rw [hc0]
+    by_cases hl : lk = lk'
+    · subst hl
+      rw [agentLoc_setLockSt_self hlk, hs']
+      by_cases ha : a' = a
+      · subst ha; simp [List.getElem?_set_self halt]
+      · simp [List.getElem?_set_ne (Ne.symm ha), ha, agentLoc_eq]
+    · rw [agentLoc_setLockSt_ne hl, if_neg (fun h => hl h.1.symm)]
+  have hs0 : SameFor vo ao t c c0 := by
+    rw [hc0]
+    refine SameFor.setLockSt hlk ?_
+    intro a' hne'
+    have : a' ≠ a := by rintro rfl; exact hne' hao
+    rw [hs', List.getElem?_set_ne (Ne.symm this)]; rfl
+  obtain ⟨th', hth'⟩ : ∃ th', th' = { (getThread c t) with pend := p' } := ⟨_, rfl⟩
+  rw [← hth']
+  have hs : SameFor vo ao t c (setThread c0 t th') := hs0.trans (SameFor.setThread ht0 (by rw [hth', hth0]))
+  have hth : getThread (setThread c0 t th') t = th' := getThread_setThread_self ht0
+  have hal : ∀ lk' a', agentLoc (setThread c0 t th') lk' a' = if lk' = lk ∧ a' = a then l' else agentLoc c lk' a' := by
+    intro lk' a'; rw [agentLoc_setThread]; exact hal0 lk' a'
+  have hown' : ∀ v, own (setThread c0 t th') v = own c v := fun v => by rw [hc0]; rfl
+  have hgv' : ∀ v, getVar (setThread c0 t th') v = getVar c v := fun v => by rw [hc0]; rfl
+  have hk : ∀ v, kindOf (setThread c0 t th') v = kindOf c v := fun v => by simp only [kindOf, hs.kinds]
+  have hprogeq : (getThread (setThread c0 t th') t).prog[(getThread (setThread c0 t th') t).pc]'(by rw [hth, hth']; exact B.hpc)
+      = (getThread c t).prog[(getThread c t).pc]'B.hpc := by
+    simp only [hth]; subst hth'; rfl
+  have hvgv : (viewOf vo ao (setThread c0 t th') t).gv = (viewOf vo ao c t).gv := by
+    simp only [viewOf]; funext v; simp only [hgv']
+  have huses : Uses vo ao (setThread c0 t th') t lk a := by
+    refine ⟨by rw [hth, hth']; exact B.hpc, by rw [hth, hth']; exact B.fin, by rw [hth, hth']; exact hph,
+      by rw [hth, hth']; exact hag, ?_, ?_, by rw [hth, hth']; exact hp', ?_⟩
+    · rw [hprogeq, hth, hvgv]
+      have : opLk (viewOf vo ao c t).gv th' ((getThread c t).prog[(getThread c t).pc]'B.hpc)
+          = opLk (viewOf vo ao c t).gv (getThread c t) ((getThread c t).prog[(getThread c t).pc]'B.hpc) := by
+        generalize (getThread c t).prog[(getThread c t).pc]'B.hpc = op
+        cases op <;> simp only [opLk] <;> rw [hth']
+      rw [this]; exact hoplk
+    · rw [viewOf_al hao, hal, if_pos ⟨rfl, rfl⟩]; exact hl'
+    · rw [hprogeq, hth]
+      generalize (getThread c t).prog[(getThread c t).pc]'B.hpc = op at hureq
+      cases op <;> simp only [usesReq] at hureq ⊢ <;> first | rfl | exact hureq | (rw [hth']; exact hureq)
+  refine Inv.update B.inv hs ?_ ?_ ?_ ?_ ?_ ?_ ?_ ?_
+  · intro v lk' a' hv h
+    rw [hown'] at h
+    obtain ⟨h1, h2, s1, h3⟩ := B.var_held hp hv h
+    refine ⟨by rw [hs.lsz]; exact h1, h2, Or.inl ⟨s1, ?_⟩⟩
+    have : ¬ (lk' = lk ∧ a' = a) := by rintro ⟨rfl, rfl⟩; exact hunref v hv h
+    rw [hal, if_neg this, hk]; exact h3
+  · intro v _ hkk; rw [hown']; exact B.inv.optNone v (by rw [← hk]; exact hkk)
+  · intro v lk' _ h; rw [hgv'] at h; rw [hs.lsz]; exact B.inv.vlk v lk' h
+  · intro v v' r hv hv' h1 h2 _
+    rw [hown'] at h1 h2
+    obtain ⟨lk', a'⟩ := r
+    obtain ⟨_, _, s1, h3⟩ := B.var_held hp hv h1
+    exact B.inv.inj v v' (lk', a') h1 h2 ⟨_, _, h3⟩
+  · intro lk' a' h; rw [hth, hth'] at h; rw [htmpn] at h; cases h
+  · intro lk' h; rw [hth, hth'] at h; rw [hs.lsz]; exact B.inv.tmpLk t lk' h
+  · intro lk' a' hlk' hat hg
+    by_cases hnew : lk' = lk ∧ a' = a
+    · obtain ⟨rfl, rfl⟩ := hnew; exact Or.inr (Or.inr huses)
+    · rw [hal, if_neg hnew] at hg
+      rw [hs.lsz] at hlk'
+      rcases B.inv.noOrphan lk' a' hlk' hg with ⟨v, h⟩ | ⟨t', h⟩ | ⟨t', h⟩
+      · exact Or.inl ⟨v, by rw [hown']; exact h⟩
+      · have : t' = t := by rw [← (B.inv.tmpOk t' lk' a' h).2.1]; exact hat
+        subst this; rw [htmpn] at h; cases h
+      · have : t' = t := by rw [← Uses_ao h]; exact hat
+        subst this
+        obtain ⟨_, _, h2, h3, _⟩ := h.eqs
+        exact absurd ⟨h3.trans hoplk, h2.trans hag⟩ hnew
+  · refine TOk_intro hth (by rw [hth']; exact B.fin) (by rw [hth']; exact hp') (by rw [hth']; exact B.hpc)
+      ((getThread c t).prog[(getThread c t).pc]'B.hpc) (by subst hth'; rfl) ?_
+    have e1 : th'.phase = 1 := by rw [hth']; exact hph
+    have e2 : th'.pend = p' := by rw [hth']
+    rw [e1, e2]
+    apply hstage
+    · show getThread (setThread c0 t th') t = _; rw [hth, hth']
+    · exact hvgv
+    · rw [viewOf_al hao, hal, if_pos ⟨rfl, rfl⟩]
+    · intro v hv
+      obtain ⟨hvt, hv'⟩ := viewOf_own_some hv
+      rw [hown'] at hv'
+      exact hunref v hvt hv'
+    · exact hs.lsz
+
+
+theorem stage_rel_elim {V : View} {op : Op} {ph lk a : Nat} {nv : BitVec 32} (h : Stage V op ph (.rel lk a nv)) :
+    ph = op.relPhase ∧ (∃ d, op.target? = some d ∧ V.own d = some (lk, a)) ∧ lk < V.nl ∧ isHeld (V.al lk a) ∧ TmpCond V op := by
+  simp only [Stage] at h
+  obtain ⟨h1, h2, h3, h4, h5⟩ := h
+  refine ⟨h1, h2, h3, h4, ?_⟩
+  cases op <;> simpa [TmpCond] using h5
+
+/-- **the release of the target's old grant** (`Unlock*` inside a destructor or move assignment) -/
+theorem Blk.release_step {c : Client} {t : Nat} (B : Blk vo ao c t) {lk a : Nat} {nv : BitVec 32}
+    (hpend : (getThread c t).pend = .rel lk a nv)
+    (s' : WLock.St) (hs' : s'.agents = (lockSt c lk).agents.set a (.done 0)) :
+    Inv vo ao (setThread (setLockSt c lk s') t { (getThread c t) with pend := .none }) := by
+  have hp : (getThread c t).pend ≠ .none := by rw [hpend]; simp
+  have hst := B.stage
+  rw [hpend] at hst
+  obtain ⟨hph, ⟨d, htg, hownd⟩, hlk, hheldV, htc⟩ := stage_rel_elim hst
+  obtain ⟨hao, halV⟩ := viewOf_al_ne_idle (isHeld_ne_idle hheldV)
+  rw [halV] at hheldV
+  obtain ⟨hdt, hownd⟩ := viewOf_own_some hownd
+  have hlk : lk < c.locks.size := hlk
+  have halt : a < (lockSt c lk).agents.length := B.inv.ref_lt hownd
+  obtain ⟨c0, hc0⟩ : ∃ c0, c0 = setLockSt c lk s' := ⟨_, rfl⟩
+  rw [← hc0]
+  have ht0 : t < c0.threads.size := by rw [hc0]; exact B.ht
+  have hth0 : getThread c0 t = getThread c t := by rw [hc0]; rfl
+  have hal0 : ∀ lk' a', agentLoc c0 lk' a' = if lk' = lk ∧ a' = a then .done 0 else agentLoc c lk' a' := by
+    intro lk' a'
+    rw [hc0]
+    by_cases hl : lk = lk'
+    · subst hl
+      rw [agentLoc_setLockSt_self hlk, hs']
+      by_cases ha : a' = a
+      · subst ha; simp [List.getElem?_set_self halt]
+      · simp [List.getElem?_set_ne (Ne.symm ha), ha, agentLoc_eq]
+    · rw [agentLoc_setLockSt_ne hl, if_neg (fun h => hl h.1.symm)]
+  have hs0 : SameFor vo ao t c c0 := by
+    rw [hc0]
+    refine SameFor.setLockSt hlk ?_
+    intro a' hne'
+    have : a' ≠ a := by rintro rfl; exact hne' hao
+    rw [hs', List.getElem?_set_ne (Ne.symm this)]; rfl
+  obtain ⟨th', hth'⟩ : ∃ th', th' = { (getThread c t) with pend := Pend.none } := ⟨_, rfl⟩
+  rw [← hth']
+  have hs : SameFor vo ao t c (setThread c0 t th') := hs0.trans (SameFor.setThread ht0 (by rw [hth', hth0]))
+  have hth : getThread (setThread c0 t th') t = th' := getThread_setThread_self ht0
+  have hal : ∀ lk' a', agentLoc (setThread c0 t th') lk' a' = if lk' = lk ∧ a' = a then .done 0 else agentLoc c lk' a' := by
+    intro lk' a'; rw [agentLoc_setThread]; exact hal0 lk' a'
+  have hown' : ∀ v, own (setThread c0 t th') v = own c v := fun v => by rw [hc0]; rfl
+  have hgv' : ∀ v, getVar (setThread c0 t th') v = getVar c v := fun v => by rw [hc0]; rfl
+  have hk : ∀ v, kindOf (setThread c0 t th') v = kindOf c v := fun v => by simp only [kindOf, hs.kinds]
+  have howner : ∀ v, vo v = t → own c v = some (lk, a) → v = d := by
+    intro v _ h; exact B.inv.inj v d (lk, a) h hownd hheldV
+  have hstale : StaleOk vo (setThread c0 t th') d := by
+    rw [StaleOk_iff, hdt, hth]
+    refine ⟨by rw [hth']; exact B.hpc, ?_, ?_, by rw [hth'], by rw [hth']; exact B.fin⟩
+    · have : th'.prog[th'.pc]'(by rw [hth']; exact B.hpc) = (getThread c t).prog[(getThread c t).pc]'B.hpc := by
+        subst hth'; rfl
+      rw [this]; exact htg
+    · have : th'.prog[th'.pc]'(by rw [hth']; exact B.hpc) = (getThread c t).prog[(getThread c t).pc]'B.hpc := by
+        subst hth'; rfl
+      rw [this, hth']; exact hph
+  have htmp_ne : ∀ lk0 a0, (getThread c t).tmp.own = some (lk0, a0) → ¬ (lk0 = lk ∧ a0 = a) := by
+    rintro lk0 a0 h ⟨rfl, rfl⟩
+    exact (B.inv.tmpOk t lk0 a0 h).2.2.2 d hownd
+  refine Inv.update B.inv hs ?_ ?_ ?_ ?_ ?_ ?_ ?_ ?_
+  · intro v lk' a' hv h
+    rw [hown'] at h
+    obtain ⟨h1, h2, s1, h3⟩ := B.var_held hp hv h
+    refine ⟨by rw [hs.lsz]; exact h1, h2, ?_⟩
+    by_cases hnew : lk' = lk ∧ a' = a
+    · obtain ⟨rfl, rfl⟩ := hnew
+      have := howner v hv h; subst this
+      exact Or.inr ⟨⟨0, by rw [hal, if_pos ⟨rfl, rfl⟩]⟩, hstale⟩
+    · exact Or.inl ⟨s1, by rw [hal, if_neg hnew, hk]; exact h3⟩
+  · intro v _ hkk; rw [hown']; exact B.inv.optNone v (by rw [← hk]; exact hkk)
+  · intro v lk' _ h; rw [hgv'] at h; rw [hs.lsz]; exact B.inv.vlk v lk' h
+  · intro v v' r hv hv' h1 h2 hh
+    rw [hown'] at h1 h2
+    obtain ⟨lk', a'⟩ := r
+    obtain ⟨_, _, s1, h3⟩ := B.var_held hp hv h1
+    exact B.inv.inj v v' (lk', a') h1 h2 ⟨_, _, h3⟩
+  · intro lk' a' h
+    rw [hth, hth'] at h
+    obtain ⟨h1, h2, h3, h4⟩ := B.inv.tmpOk t lk' a' h
+    refine ⟨by rw [hs.lsz]; exact h1, h2, by rw [hal, if_neg (htmp_ne lk' a' h)]; exact h3, ?_⟩
+    intro v _; rw [hown']; exact h4 v
+  · intro lk' h; rw [hth, hth'] at h; rw [hs.lsz]; exact B.inv.tmpLk t lk' h
+  · intro lk' a' hlk' hat hg
+    by_cases hnew : lk' = lk ∧ a' = a
+    · rw [hal, if_pos hnew] at hg; exact absurd rfl hg
+    · rw [hal, if_neg hnew] at hg
+      rw [hs.lsz] at hlk'
+      rcases B.inv.noOrphan lk' a' hlk' hg with ⟨v, h⟩ | ⟨t', h⟩ | ⟨t', h⟩
+      · exact Or.inl ⟨v, by rw [hown']; exact h⟩
+      · have : t' = t := by rw [← (B.inv.tmpOk t' lk' a' h).2.1]; exact hat
+        subst this
+        exact Or.inr (Or.inl (by rw [hth, hth']; exact h))
+      · have htt : t' = t := by rw [← Uses_ao h]; exact hat
+        rw [htt] at h
+        exfalso
+        obtain ⟨_, h1, _, _, h5⟩ := h.eqs
+        rw [h1] at hph
+        generalize (getThread c t).prog[(getThread c t).pc]'B.hpc = op at hph h5 htg
+        cases op <;> simp [Op.relPhase] at hph <;> simp [usesReq] at h5
+  · refine TOk_intro hth (by rw [hth']; exact B.fin) (by rw [hth']; simp) (by rw [hth']; exact B.hpc)
+      ((getThread c t).prog[(getThread c t).pc]'B.hpc) (by subst hth'; rfl) ?_
+    have e1 : th'.phase = ((getThread c t).prog[(getThread c t).pc]'B.hpc).relPhase := by rw [hth']; exact hph
+    have e2 : th'.pend = .none := by rw [hth']
+    rw [e1, e2]
+    have hvth : (viewOf vo ao (setThread c0 t th') t).th = th' := hth
+    refine stage_post_rel htg ?_ ?_
+    · generalize (getThread c t).prog[(getThread c t).pc]'B.hpc = op at htc
+      have htmpeq : th'.tmp = (getThread c t).tmp := by rw [hth']
+      have hTok : ∀ m, (viewOf vo ao c t).TmpOk m → (viewOf vo ao (setThread c0 t th') t).TmpOk m := by
+        intro m h
+        rcases h with h | ⟨lk0, a0, s0, h1, h2⟩
+        · left; rw [hvth, htmpeq]; exact h
+        · right
+          have h1' : (getThread c t).tmp.own = some (lk0, a0) := h1
+          have hao0 := (B.inv.tmpOk t lk0 a0 h1').2.1
+          refine ⟨lk0, a0, s0, by rw [hvth, htmpeq]; exact h1, ?_⟩
+          rw [viewOf_al hao0] at h2 ⊢
+          rw [hal, if_neg (htmp_ne lk0 a0 h1')]; exact h2
+      cases op <;> simp only [TmpCond] at htc ⊢ <;> first
+        | exact hTok _ htc
+        | (rw [hvth, htmpeq]; exact htc)
+    · right
+      refine ⟨lk, a, 0, by rw [viewOf_own hdt, hown']; exact hownd, ?_⟩
+      rw [viewOf_al hao, hal, if_pos ⟨rfl, rfl⟩]
+
+
+/-! ### a whole quantum -/
+
+/-- the pending operation was a scheduling point without effect on guards or requests (start of the thread,
+    payload accesses): the thread continues with its local code -/
+theorem mid_light {c c1 : Client} {t : Nat} (hI : Inv vo ao c) (ht : t < c.threads.size)
+    (hfin : (getThread c t).finished = false) (htmpn : (getThread c t).tmp.own = none)
+    (hnst : ∀ v, vo v = t → ¬ StaleOk vo c v) (hnu : ∀ lk a, ¬ Uses vo ao c t lk a)
+    (hs1 : SameFor vo ao t c c1) (hgv1 : ∀ v, getVar c1 v = getVar c v) (hal1 : ∀ lk a, agentLoc c1 lk a = agentLoc c lk a)
+    {th' : Thread} (h1 : th'.prog = (getThread c t).prog) (h2 : th'.tmp = (getThread c t).tmp) (h3 : th'.pend = .none)
+    (h4 : th'.finished = false) (h5 : th'.pc = (getThread c t).pc) (h6 : th'.phase = (getThread c t).phase)
+    (hstage : ∀ hpc : (getThread c t).pc < (getThread c t).prog.size, ∀ V : View, V.th = th' →
+      Stage V ((getThread c t).prog[(getThread c t).pc]'hpc) (getThread c t).phase .none) :
+    Inv vo ao (setThread c1 t th') := by
+  have ht1 : t < c1.threads.size := by rw [hs1.tsz]; exact ht
+  have hth : getThread (setThread c1 t th') t = th' := getThread_setThread_self ht1
+  refine Inv.update_own hI (hs1.trans (SameFor.setThread ht1 (by rw [h1, hs1.prog]))) (fun v => by simp only [own, getVar_setThread, hgv1])
+    (fun lk a => by rw [agentLoc_setThread, hal1]) ?_ ?_ ?_ ?_ ?_ ?_
+  · intro v lk _ h; rw [getVar_setThread, hgv1] at h
+    show lk < (setThread c1 t th').locks.size
+    rw [setThread_locks, hs1.lsz]; exact hI.vlk v lk h
+  · intro v lk a hv _ hst; exact absurd hst (hnst v hv)
+  · intro lk a h; rw [hth, h2, htmpn] at h; cases h
+  · intro lk h; rw [hth, h2] at h
+    show lk < (setThread c1 t th').locks.size
+    rw [setThread_locks, hs1.lsz]; exact hI.tmpLk t lk h
+  · intro lk a _ h _
+    rcases h with h | h
+    · rw [htmpn] at h; cases h
+    · exact absurd h (hnu lk a)
+  · simp only [TOk, hth, h4, h3, reduceCtorEq, if_false, Bool.false_eq_true]
+    split
+    · rename_i hpc
+      have hpc' : (getThread c t).pc < (getThread c t).prog.size := by rw [← h5, ← h1]; exact hpc
+      have := hstage hpc' (viewOf vo ao (setThread c1 t th') t) hth
+      have he : th'.prog[th'.pc]'hpc = (getThread c t).prog[(getThread c t).pc]'hpc' := by
+        simp only [h1, h5]
+      rw [he, h6]; exact this
+    · exact ⟨by rw [h2]; exact htmpn, trivial⟩
+
+theorem thread_eta_pend {th : Thread} {p : Pend} (h : th.pend = p) : { th with pend := p } = th := by
+  cases th; simp only at h; subst h; rfl
+
+/-- **every quantum of every thread preserves the invariant** -/
+theorem step_inv {c c' : Client} {t : Nat} {e : String} {o : Out} (hwf : WF vo c) (hI : Inv vo ao c)
+    (ht : t < c.threads.size) (h : stepThread P c t = some (c', e, o)) :
+    ∃ ao', Inv vo ao' c' ∧ WF vo c' ∧ c'.threads.size = c.threads.size := by
+  simp only [stepThread] at h
+  split at h
+  · cases h
+  rename_i hfin
+  have hfin : (getThread c t).finished = false := by simpa using hfin
+  split at h
+  · cases h
+  · -- start
+    rename_i hpend
+    have htok := hI.thr t ht
+    simp only [TOk, hfin, hpend, if_true, Bool.false_eq_true, if_false] at htok
+    simp only [Option.some.injEq, Prod.mk.injEq] at h
+    have hmid : Inv vo ao (setThread c t { (getThread c t) with pend := .none }) := by
+      refine mid_light hI ht hfin htok.1 ?_ ?_ (SameFor.refl c t) (fun _ => rfl) (fun _ _ => rfl) rfl rfl rfl hfin rfl rfl ?_
+      · intro v hv hst; rw [StaleOk_iff] at hst; subst hv
+        obtain ⟨_, _, _, h4, _⟩ := hst; rw [hpend] at h4; cases h4
+      · intro lk a hu; obtain ⟨_, _, _, _, _, _, h7, _⟩ := hu; exact h7 hpend
+      · intro hpc V hV; rw [htok.2]; simp only [Stage, if_true, hV]; exact htok.1
+    obtain ⟨ao', h1, h2, h3⟩ := advance_inv (P := P) (vo := vo) (8 * ((getThread c t).prog.size + 2))
+      (setThread c t { (getThread c t) with pend := .none }) [] ao t
+      (hwf.same (SameFor.setThread (vo := vo) (ao := ao) (th := { (getThread c t) with pend := .none }) ht rfl)) hmid
+      (by simpa using ht) (by rw [getThread_setThread_self ht]) (by rw [getThread_setThread_self ht]; exact hfin)
+    rw [← h.1]
+    exact ⟨ao', h1, h2, by rw [h3]; simp⟩
+  · -- atomic step inside a call
+    rename_i lk a hpend
+    have B : Blk vo ao c t := ⟨hwf, hI, ht, hfin, by rw [hpend]; simp, by
+      have htok := hI.thr t ht
+      simp only [TOk, hfin, hpend, reduceCtorEq, if_false, Bool.false_eq_true] at htok
+      split at htok
+      · assumption
+      · obtain ⟨_, h2⟩ := htok; cases h2⟩
+    have hst := B.stage
+    rw [hpend] at hst
+    simp only [Stage] at hst
+    obtain ⟨hph, htmpn, hlkeq, haeq, ⟨k, hcall, hca⟩, hupg⟩ := hst
+    have hvth : (viewOf vo ao c t).th = getThread c t := rfl
+    rw [hvth] at hlkeq haeq htmpn
+    obtain ⟨h1, h2, h3, h4⟩ := CallAg.facts hca (by intro l hl hh; rw [hh] at hl; cases hl)
+    rw [← hlkeq] at h1 h2 h3 h4
+    rw [← haeq] at h2 h3 h4
+    have hne : agentLoc c lk a ≠ .idle := by intro hh; rw [hh] at h3; cases h3
+    have hsome := agentLoc_some hne
+    have halt := agentLoc_ne_idle_lt hne
+    have hureq : usesReq (getThread c t) ((getThread c t).prog[(getThread c t).pc]'B.hpc) = true := by
+      generalize (getThread c t).prog[(getThread c t).pc]'B.hpc = op at hcall hupg
+      cases op <;> simp only [Op.call?, reduceCtorEq] at hcall <;> simp only [usesReq]
+      exact hupg
+    simp only [WLock.step, hsome] at h
+    cases hat : atomStep P (lockSt c lk) a (agentLoc c lk a) none false with
+    | none => rw [hat] at h; simp at h
+    | some r =>
+      obtain ⟨s', ev⟩ := r
+      rw [hat] at h
+      simp only [Option.map_some] at h
+      obtain ⟨l', hl'some, hl'⟩ := atomStep_call hsome h3 hat
+      have hs' : s'.agents = (lockSt c lk).agents.set a l' := by
+        apply List.ext_getElem?
+        intro i
+        by_cases hi : a = i
+        · subst hi; rw [List.getElem?_set_self halt]; exact hl'some
+        · rw [List.getElem?_set_ne hi]; exact atom_other hat hi
+      have hl'ne : l' ≠ .idle := by
+        rcases hl' with hl' | hl'
+        · intro hh; rw [hh] at hl'; cases hl'
+        · exact result_ne_idle k l' hl'
+      have hloc' : agentLoc (setLockSt c lk s') lk a = l' := by
+        rw [agentLoc_setLockSt_self h1, hl'some]; rfl
+      rw [hloc'] at h
+      have hstep := fun p' hp' hstage => B.agent_step (by rw [hpend]; simp) hph htmpn h1 h2 haeq.symm hlkeq.symm hureq h4 halt
+        l' hl'ne s' hs' p' hp' hstage
+      split at h
+      · -- the call has finished
+        rename_i hstable
+        have hres : k.result l' := by
+          rcases hl' with hl' | hl'
+          · exfalso; cases l' <;> simp [Loc.call] at hl' <;> simp [Loc.stable] at hstable
+          · exact hl'
+        have hmid := hstep .none (by simp) (by
+          intro V hV hgv hal hunr hnl
+          generalize (getThread c t).prog[(getThread c t).pc]'B.hpc = op at hcall hupg hlkeq
+          have hVtmp : V.th.tmp.own = none := by rw [hV]; exact htmpn
+          have hca' : ∀ Q : Loc → Prop, Q l' → V.CallAg op Q := by
+            intro Q hQ
+            have : opLk V.gv V.th op = lk := by
+              rw [hgv, hlkeq]
+              cases op <;> simp only [opLk] <;> rw [hV]
+            refine ⟨by rw [this, hnl]; exact h1, by rw [this, hV]; simp only; rw [← haeq, hal]; exact hQ,
+              by rw [this, hV]; simp only; rw [← haeq]; exact hunr⟩
+          cases op <;> simp only [Op.call?, reduceCtorEq, Option.some.injEq] at hcall <;> subst hcall <;>
+            simp only [Stage, if_false, Nat.one_ne_zero, if_true, true_and, forall_const]
+          · exact ⟨hVtmp, _, rfl, hca' _ hres⟩
+          · refine ⟨hVtmp, Or.inr ⟨by rw [hV]; exact hupg, hca' _ ?_⟩⟩
+            simpa [CallK.result, Op.outMode] using hres
+          · exact ⟨hVtmp, _, rfl, hca' _ hres⟩
+          · exact ⟨hVtmp, _, rfl, hca' _ hres⟩
+          · exact ⟨hVtmp, _, rfl, hca' _ hres⟩
+          · exact ⟨hVtmp, _, rfl, hca' _ hres⟩
+          · exact ⟨hVtmp, _, rfl, hca' _ hres⟩)
+        simp only [Option.some.injEq, Prod.mk.injEq] at h
+        have ht' : t < (setLockSt c lk s').threads.size := ht
+        obtain ⟨ao', g1, g2, g3⟩ := advance_inv (P := P) (vo := vo) (8 * ((getThread c t).prog.size + 2))
+          (setThread (setLockSt c lk s') t { (getThread c t) with pend := .none }) [] ao t
+          (hwf.same (((SameFor.setLockSt (vo := vo) (ao := ao) h1 (by
+              intro a' hne'
+              have : a' ≠ a := by rintro rfl; exact hne' h2
+              rw [hs', List.getElem?_set_ne (Ne.symm this)]; rfl)).trans
+                (SameFor.setThread (th := { (getThread c t) with pend := .none }) ht' rfl))))
+          hmid (by simpa using ht) (by rw [getThread_setThread_self ht']) (by rw [getThread_setThread_self ht']; exact hfin)
+        rw [← h.1]
+        exact ⟨ao', g1, g2, by rw [g3]; simp⟩
+      · -- still inside the call
+        rename_i hstable
+        have hcall' : l'.call = some k := by
+          rcases hl' with hl' | hl'
+          · exact hl'
+          · exfalso; apply hstable
+            cases k <;> simp only [CallK.result] at hl'
+            all_goals first
+              | (rcases hl' with ⟨s, rfl⟩ | ⟨r, rfl⟩ <;> rfl)
+              | (obtain ⟨s, rfl⟩ := hl'; rfl)
+        have hsame := hstep (.atom lk a) (by simp) (by
+          intro V hV hgv hal hunr hnl
+          have hth : V.th = getThread c t := by rw [hV]; exact thread_eta_pend hpend
+          generalize (getThread c t).prog[(getThread c t).pc]'B.hpc = op at hcall hupg hlkeq
+          simp only [Stage, true_and, hth]
+          have : opLk V.gv (getThread c t) op = lk := by rw [hgv, hlkeq]
+          refine ⟨htmpn, this.symm, haeq, ⟨k, hcall, ?_⟩, hupg⟩
+          exact ⟨by rw [hth, this, hnl]; exact h1, by rw [hth, this, ← haeq, hal]; exact hcall',
+            by rw [hth, this, ← haeq]; exact hunr⟩)
+        rw [thread_eta_pend hpend] at hsame
+        have hth0 : getThread (setLockSt c lk s') t = getThread c t := rfl
+        rw [← hth0, setThread_getThread] at hsame
+        simp only [Option.some.injEq, Prod.mk.injEq] at h
+        rw [← h.1]
+        refine ⟨ao, hsame, ?_, rfl⟩
+        exact hwf.same (SameFor.setLockSt (vo := vo) (ao := ao) h1 (by
+              intro a' hne'
+              have : a' ≠ a := by rintro rfl; exact hne' h2
+              rw [hs', List.getElem?_set_ne (Ne.symm this)]; rfl))
+  · -- release of the target's old grant
+    rename_i lk a nv hpend
+    have B : Blk vo ao c t := ⟨hwf, hI, ht, hfin, by rw [hpend]; simp, by
+      have htok := hI.thr t ht
+      simp only [TOk, hfin, hpend, reduceCtorEq, if_false, Bool.false_eq_true] at htok
+      split at htok
+      · assumption
+      · obtain ⟨_, h2⟩ := htok; cases h2⟩
+    have hst := B.stage
+    rw [hpend] at hst
+    obtain ⟨_, ⟨d, _, hownd⟩, hlkV, hheldV, _⟩ := stage_rel_elim hst
+    obtain ⟨hao, halV⟩ := viewOf_al_ne_idle (isHeld_ne_idle hheldV)
+    have hlk : lk < c.locks.size := hlkV
+    simp only [WLock.step] at h
+    cases hag : (lockSt c lk).agents[a]? with
+    | none => simp [hag] at h
+    | some loc =>
+      simp only [hag] at h
+      cases hrs : releaseStep P (lockSt c lk) a loc nv with
+      | none => rw [hrs] at h; simp at h
+      | some r =>
+        obtain ⟨s', ev⟩ := r
+        rw [hrs] at h
+        simp only [Option.map_some, Option.some.injEq, Prod.mk.injEq] at h
+        have hs' : s'.agents = (lockSt c lk).agents.set a (.done 0) := by
+          rw [release_agents hrs]; rfl
+        have hmid := B.release_step hpend s' hs'
+        have ht' : t < (setLockSt c lk s').threads.size := ht
+        obtain ⟨ao', g1, g2, g3⟩ := advance_inv (P := P) (vo := vo) (8 * ((getThread c t).prog.size + 2))
+          (setThread (setLockSt c lk s') t { (getThread c t) with pend := .none }) [] ao t
+          (hwf.same (((SameFor.setLockSt (vo := vo) (ao := ao) hlk (by
+              intro a' hne'
+              have : a' ≠ a := by rintro rfl; exact hne' hao
+              rw [hs', List.getElem?_set_ne (Ne.symm this)]; rfl)).trans
+                (SameFor.setThread (th := { (getThread c t) with pend := .none }) ht' rfl))))
+          hmid (by simpa using ht) (by rw [getThread_setThread_self ht']) (by rw [getThread_setThread_self ht']; exact hfin)
+        rw [← h.1]
+        exact ⟨ao', g1, g2, by rw [g3]; simp⟩
+  · -- the downgrade store
+    rename_i lk a nv hpend
+    have B : Blk vo ao c t := ⟨hwf, hI, ht, hfin, by rw [hpend]; simp, by
+      have htok := hI.thr t ht
+      simp only [TOk, hfin, hpend, reduceCtorEq, if_false, Bool.false_eq_true] at htok
+      split at htok
+      · assumption
+      · obtain ⟨_, h2⟩ := htok; cases h2⟩
+    have hst := B.stage
+    rw [hpend] at hst
+    simp only [Stage] at hst
+    obtain ⟨hph, htmpn, hlkeq, haeq, hlksome, ⟨d, s, hopd⟩, hca⟩ := hst
+    have hvth : (viewOf vo ao c t).th = getThread c t := rfl
+    rw [hvth] at hlkeq haeq htmpn hlksome
+    obtain ⟨h1, h2, ⟨s0, h3⟩, h4⟩ := CallAg.facts hca (by rintro l ⟨s, rfl⟩; simp)
+    rw [← hlkeq] at h1 h2 h3 h4
+    rw [← haeq] at h2 h3 h4
+    have hne : agentLoc c lk a ≠ .idle := by rw [h3]; simp
+    have hsome := agentLoc_some hne
+    have halt := agentLoc_ne_idle_lt hne
+    rw [h3] at hsome
+    simp only [WLock.step, hsome, downgradeStep, Option.map_some, Option.some.injEq, Prod.mk.injEq] at h
+    have hureq : usesReq (getThread c t) ((getThread c t).prog[(getThread c t).pc]'B.hpc) = true := by
+      rw [hopd]; exact hlksome
+    have hmid := B.agent_step (by rw [hpend]; simp) hph htmpn h1 h2 haeq.symm hlkeq.symm hureq h4 halt
+      (.held .SIX s0) (by simp) { setLoc (lockSt c lk) a (.held .SIX s0) with w := P.dngVal nv } rfl .none (by simp) (by
+        intro V hV hgv hal hunr hnl
+        rw [hopd]
+        have hVtmp : V.th.tmp = (getThread c t).tmp := by rw [hV]
+        have hVag : V.th.ag = a := by rw [hV]; exact haeq.symm
+        have hlk' : opLk V.gv V.th (.dng d s) = lk := by
+          rw [hlkeq, hopd]; simp only [opLk, hVtmp]
+        simp only [Stage, if_false, Nat.one_ne_zero, if_true, hVtmp, htmpn, true_and]
+        right
+        refine ⟨hlksome, by rw [hlk', hnl]; exact h1, ?_, ?_⟩
+        · rw [hlk', hVag, hal]; exact ⟨s0, rfl⟩
+        · rw [hlk', hVag]; exact hunr)
+    have ht' : t < (setLockSt c lk { setLoc (lockSt c lk) a (.held .SIX s0) with w := P.dngVal nv }).threads.size := ht
+    obtain ⟨ao', g1, g2, g3⟩ := advance_inv (P := P) (vo := vo) (8 * ((getThread c t).prog.size + 2))
+      (setThread (setLockSt c lk { setLoc (lockSt c lk) a (.held .SIX s0) with w := P.dngVal nv }) t
+        { (getThread c t) with pend := .none }) [] ao t
+      (hwf.same (((SameFor.setLockSt (vo := vo) (ao := ao) h1 (by
+          intro a' hne'
+          have : a' ≠ a := by rintro rfl; exact hne' h2
+          show ((lockSt c lk).agents.set a (.held .SIX s0))[a']?.getD .idle = _
+          rw [List.getElem?_set_ne (Ne.symm this)]; rfl)).trans
+            (SameFor.setThread (th := { (getThread c t) with pend := .none }) ht' rfl))))
+      hmid (by simpa using ht) (by rw [getThread_setThread_self ht']) (by rw [getThread_setThread_self ht']; exact hfin)
+    rw [← h.1]
+    exact ⟨ao', g1, g2, by rw [g3]; simp⟩
+  · -- payload access
+    rename_i lkp hpend
+    have hpcB : (getThread c t).pc < (getThread c t).prog.size := by
+      have htok := hI.thr t ht
+      simp only [TOk, hfin, hpend, reduceCtorEq, if_false, Bool.false_eq_true] at htok
+      split at htok
+      · assumption
+      · obtain ⟨_, h2⟩ := htok; cases h2
+    have B : Blk vo ao c t := ⟨hwf, hI, ht, hfin, by rw [hpend]; simp, hpcB⟩
+    have hst := B.stage
+    rw [hpend] at hst
+    simp only [Stage] at hst
+    obtain ⟨htmpn, hph, HOP⟩ := hst
+    have hvth : (viewOf vo ao c t).th = getThread c t := rfl
+    rw [hvth] at htmpn
+    simp only [Option.some.injEq, Prod.mk.injEq] at h
+    have hmid : Inv vo ao (setThread c t { (getThread c t) with pend := .none, payTmp := (c.pay.getD lkp (0, 0)).1 }) := by
+      refine mid_light hI ht hfin htmpn ?_ ?_ (SameFor.refl (vo := vo) (ao := ao) c t) (fun _ => rfl) (fun _ _ => rfl) rfl rfl rfl hfin rfl rfl ?_
+      · intro v hv hst; rw [StaleOk_iff] at hst; subst hv
+        obtain ⟨_, h3, _⟩ := hst
+        obtain ⟨lk0, hop⟩ := HOP
+        rw [hop] at h3; simp [Op.target?] at h3
+      · intro lk' a' hu
+        obtain ⟨_, _, _, _, h5⟩ := hu.eqs
+        obtain ⟨lk0, hop⟩ := HOP
+        rw [hop] at h5; simp [usesReq] at h5
+      · intro hpc V hV
+        obtain ⟨lk0, hop⟩ := HOP
+        rw [hop, hph]
+        simp only [Stage, hV]; simpa using htmpn
+    obtain ⟨ao', g1, g2, g3⟩ := advance_inv (P := P) (vo := vo) (8 * ((getThread c t).prog.size + 2))
+      (setThread c t { (getThread c t) with pend := .none, payTmp := (c.pay.getD lkp (0, 0)).1 }) [] ao t
+      (hwf.same ((SameFor.refl (vo := vo) (ao := ao) c t).trans (SameFor.setThread (vo := vo) (ao := ao) (th := { (getThread c t) with pend := .none, payTmp := (c.pay.getD lkp (0, 0)).1 }) ht rfl))) hmid
+      (by simpa using ht) (by rw [getThread_setThread_self (c := c) ht]) (by rw [getThread_setThread_self (c := c) ht]; exact hfin)
+    rw [← h.1]
+    exact ⟨ao', g1, g2, by rw [g3]; simp⟩
+  · -- payload access
+    rename_i lkp hpend
+    have hpcB : (getThread c t).pc < (getThread c t).prog.size := by
+      have htok := hI.thr t ht
+      simp only [TOk, hfin, hpend, reduceCtorEq, if_false, Bool.false_eq_true] at htok
+      split at htok
+      · assumption
+      · obtain ⟨_, h2⟩ := htok; cases h2
+    have B : Blk vo ao c t := ⟨hwf, hI, ht, hfin, by rw [hpend]; simp, hpcB⟩
+    have hst := B.stage
+    rw [hpend] at hst
+    simp only [Stage] at hst
+    obtain ⟨htmpn, hph, HOP⟩ := hst
+    have hvth : (viewOf vo ao c t).th = getThread c t := rfl
+    rw [hvth] at htmpn
+    simp only [Option.some.injEq, Prod.mk.injEq] at h
+    have hmid : Inv vo ao (setThread c t { (getThread c t) with pend := .none }) := by
+      refine mid_light hI ht hfin htmpn ?_ ?_ (SameFor.refl (vo := vo) (ao := ao) c t) (fun _ => rfl) (fun _ _ => rfl) rfl rfl rfl hfin rfl rfl ?_
+      · intro v hv hst; rw [StaleOk_iff] at hst; subst hv
+        obtain ⟨_, h3, _⟩ := hst
+        obtain ⟨lk0, hop⟩ := HOP
+        rw [hop] at h3; simp [Op.target?] at h3
+      · intro lk' a' hu
+        obtain ⟨_, _, _, _, h5⟩ := hu.eqs
+        obtain ⟨lk0, hop⟩ := HOP
+        rw [hop] at h5; simp [usesReq] at h5
+      · intro hpc V hV
+        obtain ⟨lk0, hop⟩ := HOP
+        rw [hop, hph]
+        simp only [Stage, hV]; simpa using htmpn
+    obtain ⟨ao', g1, g2, g3⟩ := advance_inv (P := P) (vo := vo) (8 * ((getThread c t).prog.size + 2))
+      (setThread c t { (getThread c t) with pend := .none }) [] ao t
+      (hwf.same ((SameFor.refl (vo := vo) (ao := ao) c t).trans (SameFor.setThread (vo := vo) (ao := ao) (th := { (getThread c t) with pend := .none }) ht rfl))) hmid
+      (by simpa using ht) (by rw [getThread_setThread_self (c := c) ht]) (by rw [getThread_setThread_self (c := c) ht]; exact hfin)
+    rw [← h.1]
+    exact ⟨ao', g1, g2, by rw [g3]; simp⟩
+  · -- payload access
+    rename_i lkp valp hpend
+    have hpcB : (getThread c t).pc < (getThread c t).prog.size := by
+      have htok := hI.thr t ht
+      simp only [TOk, hfin, hpend, reduceCtorEq, if_false, Bool.false_eq_true] at htok
+      split at htok
+      · assumption
+      · obtain ⟨_, h2⟩ := htok; cases h2
+    have B : Blk vo ao c t := ⟨hwf, hI, ht, hfin, by rw [hpend]; simp, hpcB⟩
+    have hst := B.stage
+    rw [hpend] at hst
+    simp only [Stage] at hst
+    obtain ⟨htmpn, hph, HOP⟩ := hst
+    have hvth : (viewOf vo ao c t).th = getThread c t := rfl
+    rw [hvth] at htmpn
+    simp only [Option.some.injEq, Prod.mk.injEq] at h
+    have hmid : Inv vo ao (setThread { c with pay := c.pay.setIfInBounds lkp (valp, (c.pay.getD lkp (0, 0)).2) } t { (getThread c t) with pend := .none }) := by
+      refine mid_light hI ht hfin htmpn ?_ ?_ (SameFor.pay (vo := vo) (ao := ao) (t := t) (c := c) (p := c.pay.setIfInBounds lkp (valp, (c.pay.getD lkp (0, 0)).2))) (fun _ => rfl) (fun _ _ => rfl) rfl rfl rfl hfin rfl rfl ?_
+      · intro v hv hst; rw [StaleOk_iff] at hst; subst hv
+        obtain ⟨_, h3, _⟩ := hst
+        obtain ⟨lk0, v0, hop⟩ := HOP
+        rw [hop] at h3; simp [Op.target?] at h3
+      · intro lk' a' hu
+        obtain ⟨_, _, _, _, h5⟩ := hu.eqs
+        obtain ⟨lk0, v0, hop⟩ := HOP
+        rw [hop] at h5; simp [usesReq] at h5
+      · intro hpc V hV
+        obtain ⟨lk0, v0, hop⟩ := HOP
+        rw [hop, hph]
+        simp only [Stage, hV]; simpa using htmpn
+    obtain ⟨ao', g1, g2, g3⟩ := advance_inv (P := P) (vo := vo) (8 * ((getThread c t).prog.size + 2))
+      (setThread { c with pay := c.pay.setIfInBounds lkp (valp, (c.pay.getD lkp (0, 0)).2) } t { (getThread c t) with pend := .none }) [] ao t
+      (hwf.same ((SameFor.pay (vo := vo) (ao := ao) (t := t) (c := c) (p := c.pay.setIfInBounds lkp (valp, (c.pay.getD lkp (0, 0)).2))).trans (SameFor.setThread (vo := vo) (ao := ao) (th := { (getThread c t) with pend := .none }) ht rfl))) hmid
+      (by simpa using ht) (by rw [getThread_setThread_self (c := { c with pay := c.pay.setIfInBounds lkp (valp, (c.pay.getD lkp (0, 0)).2) }) ht]) (by rw [getThread_setThread_self (c := { c with pay := c.pay.setIfInBounds lkp (valp, (c.pay.getD lkp (0, 0)).2) }) ht]; exact hfin)
+    rw [← h.1]
+    exact ⟨ao', g1, g2, by rw [g3]; simp⟩
+  · -- payload access
+    rename_i lkp valp hpend
+    have hpcB : (getThread c t).pc < (getThread c t).prog.size := by
+      have htok := hI.thr t ht
+      simp only [TOk, hfin, hpend, reduceCtorEq, if_false, Bool.false_eq_true] at htok
+      split at htok
+      · assumption
+      · obtain ⟨_, h2⟩ := htok; cases h2
+    have B : Blk vo ao c t := ⟨hwf, hI, ht, hfin, by rw [hpend]; simp, hpcB⟩
+    have hst := B.stage
+    rw [hpend] at hst
+    simp only [Stage] at hst
+    obtain ⟨htmpn, hph, HOP⟩ := hst
+    have hvth : (viewOf vo ao c t).th = getThread c t := rfl
+    rw [hvth] at htmpn
+    simp only [Option.some.injEq, Prod.mk.injEq] at h
+    have hmid : Inv vo ao (setThread { c with pay := c.pay.setIfInBounds lkp ((c.pay.getD lkp (0, 0)).1, valp) } t { (getThread c t) with pend := .none }) := by
+      refine mid_light hI ht hfin htmpn ?_ ?_ (SameFor.pay (vo := vo) (ao := ao) (t := t) (c := c) (p := c.pay.setIfInBounds lkp ((c.pay.getD lkp (0, 0)).1, valp))) (fun _ => rfl) (fun _ _ => rfl) rfl rfl rfl hfin rfl rfl ?_
+      · intro v hv hst; rw [StaleOk_iff] at hst; subst hv
+        obtain ⟨_, h3, _⟩ := hst
+        obtain ⟨lk0, v0, hop⟩ := HOP
+        rw [hop] at h3; simp [Op.target?] at h3
+      · intro lk' a' hu
+        obtain ⟨_, _, _, _, h5⟩ := hu.eqs
+        obtain ⟨lk0, v0, hop⟩ := HOP
+        rw [hop] at h5; simp [usesReq] at h5
+      · intro hpc V hV
+        obtain ⟨lk0, v0, hop⟩ := HOP
+        rw [hop, hph]
+        simp only [Stage, hV]; simpa using htmpn
+    obtain ⟨ao', g1, g2, g3⟩ := advance_inv (P := P) (vo := vo) (8 * ((getThread c t).prog.size + 2))
+      (setThread { c with pay := c.pay.setIfInBounds lkp ((c.pay.getD lkp (0, 0)).1, valp) } t { (getThread c t) with pend := .none }) [] ao t
+      (hwf.same ((SameFor.pay (vo := vo) (ao := ao) (t := t) (c := c) (p := c.pay.setIfInBounds lkp ((c.pay.getD lkp (0, 0)).1, valp))).trans (SameFor.setThread (vo := vo) (ao := ao) (th := { (getThread c t) with pend := .none }) ht rfl))) hmid
+      (by simpa using ht) (by rw [getThread_setThread_self (c := { c with pay := c.pay.setIfInBounds lkp ((c.pay.getD lkp (0, 0)).1, valp) }) ht]) (by rw [getThread_setThread_self (c := { c with pay := c.pay.setIfInBounds lkp ((c.pay.getD lkp (0, 0)).1, valp) }) ht]; exact hfin)
+    rw [← h.1]
+    exact ⟨ao', g1, g2, by rw [g3]; simp⟩
+
 end CppUtil.WClient
